@@ -19,8 +19,8 @@ CONFIGS = {'linear': ['-t', 'ext2', '-O', '^dir_index', '-b', '1024'], 'indexed'
            'largedir_2k': ['-t', 'ext4', '-O', '^has_journal,large_dir,^metadata_csum', '-b', '2048']}
 # superblock settings made after mke2fs: hash algorithm (legacy 0, half_md4 1, tea 2) and the signed (1) / unsigned (2) hash flag of the creating architecture
 CONFIGS.update({'tea_unsigned': CONFIGS['indexed'], 'tea_signed': CONFIGS['indexed'], 'legacy_unsigned': CONFIGS['indexed'], 'md4_unsigned_csum': CONFIGS['indexed_csum']})
-POST = {'tea_unsigned': ['ssv def_hash_version 2', 'ssv flags 2'], 'tea_signed': ['ssv def_hash_version 2', 'ssv flags 1'], 'legacy_unsigned': ['ssv def_hash_version 0', 'ssv flags 2'],
-        'md4_unsigned_csum': ['ssv def_hash_version 1', 'ssv flags 2']}
+POST = {'tea_unsigned': ['ssv def_hash_version tea', 'ssv flags 2'], 'tea_signed': ['ssv def_hash_version tea', 'ssv flags 1'], 'legacy_unsigned': ['ssv def_hash_version legacy', 'ssv flags 2'],
+        'md4_unsigned_csum': ['ssv def_hash_version half_md4', 'ssv flags 2']}
 def names(seq, n):
     if seq == 'hibit': return ['n\xe9\xfc\x80%03d\xff' % i for i in range(n)]          # bytes >= 0x80: signed and unsigned hash flavours differ on these
     if seq == 'short': return ['n%03d' % i for i in range(n)]
@@ -101,7 +101,7 @@ def sweep_job(j):
     nm = names(seq, N)
     model = dict(ROOTMODEL); bad = []; steps = 0; thresholds = []
     prev_shape = dirblocks(open(p, 'rb').read())
-    reindex_at = (40, 200) if cfg != 'linear' else ()
+    reindex_at = ((40, 200) if seq != 'hibit' else (70,)) if cfg != 'linear' else ()          # (hibit: indexed by e2fsck -D as soon as there are two blocks; every later insert goes through the index)
     for i, n in enumerate(nm):
         before = open(p, 'rb').read() if True else None
         rc, out = dbg(p, ['mknod %s p' % n])
